@@ -5,8 +5,8 @@
 // with a full snapshot of every live object after every step.
 //
 //   shist ops=<op;op;…>                 => s1=<step> s2=<step> … end=<clean|leak>
-//   sfault ops=<prefix> op=<op> k=<n>   => s1=… sN=… f=<bad_alloc|completed|other> sf=<snapshot> end=<…>
-//   nallocs ops=<prefix> op=<op>        => n=<allocations performed by op after the prefix>
+//   sfault ops=<prefix> op=<op>         => pre=<snapshot> k0=ok|<snapshot>|<clean|leak> n=<allocations of op> k1=<exc>|<snapshot>|<clean|leak> … kn=… end=done
+//                                          (k<i>: the operation run from the same pre-state with its i-th allocation throwing bad_alloc)
 //
 // step  = <snapshot>  |  !<exception>|<snapshot>        (the operation threw; snapshot taken after the catch)
 // snapshot: objects in id order "o<id>:<size>:<units>:<terminator>:<where>:<ptr>", where = L (own in-object array) |
@@ -80,14 +80,19 @@ static std::vector<std::string> splitc(const std::string &s, char sep) {
     return v;
 }
 
-struct Discard { size_t acc = 0; void operator()(size_t v) { acc += v; } };
 static volatile size_t g_sink;
+
+// fault injection point: armed immediately before the library call of an operation (after the harness has parsed
+// and built the operation's arguments), so only allocations made by the library are counted / failed
+static long g_arm_k = -1;      // -1 = not in a fault run; 0 = count only; k > 0 = fail the k-th allocation
+static void arm_now() { if (g_arm_k >= 0) { alloc_ctl().count = 0; alloc_ctl().fail_at = g_arm_k > 0 ? g_arm_k : -1; } }
 
 // const operations returning a string (or, for d == 8, a char_buffer)
 static void const_op(SPool &P, int d, int s, const std::string &name, long x, long y) {
     const ST::string &src = P.str(s);
     auto arg = [&](long i) -> const ST::string & { return P.str((int)i); };
     auto ci = [&](long f) { return f ? ST::case_insensitive : ST::case_sensitive; };
+    arm_now();
     if (d == BUFSLOT) {
         if (name == "toutf8") new (P.raw[d]) B(src.to_utf8());
         else if (name == "tolatin1") new (P.raw[d]) B(src.to_latin_1(true));
@@ -150,6 +155,7 @@ static void const_op(SPool &P, int d, int s, const std::string &name, long x, lo
 static void vector_op(SPool &P, int s, const std::string &name, long x, long y, const int d[3]) {
     const ST::string &src = P.str(s);
     std::vector<ST::string> v;
+    arm_now();
     if (name == "splitc") v = src.split((char)x, y < 0 ? ST_AUTO_SIZE : (size_t)y);
     else if (name == "splits") v = src.split(P.str((int)x), y < 0 ? ST_AUTO_SIZE : (size_t)y);
     else if (name == "splitz") v = src.split(P.str((int)x).c_str(), y < 0 ? ST_AUTO_SIZE : (size_t)y);
@@ -171,6 +177,7 @@ static void query_op(SPool &P, int s, const std::string &name, long x, long y) {
     const ST::string &src = P.str(s);
     auto arg = [&](long i) -> const ST::string & { return P.str((int)i); };
     size_t r = 0;
+    arm_now();
     if (name == "find") r = (size_t)src.find(arg(x));
     else if (name == "findi") r = (size_t)src.find(arg(x), ST::case_insensitive);
     else if (name == "findat") r = (size_t)src.find((size_t)y, arg(x).c_str());
@@ -213,33 +220,32 @@ static void apply(SPool &P, const std::string &op) {
     std::vector<std::string> f = splitc(head, ',');
     auto num = [&](size_t i) -> long { return i < f.size() && !f[i].empty() ? atol(f[i].c_str()) : 0; };
     int o = (int)num(0);
-    CountScope scope;
     switch (c) {
-    case 'N': { std::string b = parse_bytes(tail); new (P.raw[o]) ST::string(b.data(), b.size(), ST::assume_valid); P.live[o] = true; break; }
-    case 'D': new (P.raw[o]) ST::string(); P.live[o] = true; break;
-    case 'C': new (P.raw[o]) ST::string(P.str((int)num(1))); P.live[o] = true; break;
-    case 'M': new (P.raw[o]) ST::string(std::move(P.str((int)num(1)))); P.live[o] = true; break;
-    case 'X': if (o == BUFSLOT) P.buf(o).~B(); else P.str(o).~string(); P.live[o] = false; break;
-    case 'c': P.str(o) = P.str((int)num(1)); break;
-    case 'm': P.str(o) = std::move(P.str((int)num(1))); break;
-    case 'R': P.str(o).clear(); break;
-    case 'P': P.str(o) += P.str((int)num(1)); break;
-    case 'p': P.str(o) += P.str((int)num(1)).c_str(); break;
-    case 'a': P.str(o) += (char32_t)num(1); break;
-    case 'e': P.str(o) += (char)num(1); break;
-    case 'S': { std::string b = parse_bytes(tail); P.str(o).set(b.data(), b.size(), mode_of(f[1][0])); break; }
+    case 'N': { std::string b = parse_bytes(tail); arm_now(); new (P.raw[o]) ST::string(b.data(), b.size(), ST::assume_valid); P.live[o] = true; break; }
+    case 'D': arm_now(); new (P.raw[o]) ST::string(); P.live[o] = true; break;
+    case 'C': arm_now(); new (P.raw[o]) ST::string(P.str((int)num(1))); P.live[o] = true; break;
+    case 'M': arm_now(); new (P.raw[o]) ST::string(std::move(P.str((int)num(1)))); P.live[o] = true; break;
+    case 'X': arm_now(); if (o == BUFSLOT) P.buf(o).~B(); else P.str(o).~string(); P.live[o] = false; break;
+    case 'c': arm_now(); P.str(o) = P.str((int)num(1)); break;
+    case 'm': arm_now(); P.str(o) = std::move(P.str((int)num(1))); break;
+    case 'R': arm_now(); P.str(o).clear(); break;
+    case 'P': arm_now(); P.str(o) += P.str((int)num(1)); break;
+    case 'p': arm_now(); P.str(o) += P.str((int)num(1)).c_str(); break;
+    case 'a': arm_now(); P.str(o) += (char32_t)num(1); break;
+    case 'e': arm_now(); P.str(o) += (char)num(1); break;
+    case 'S': { std::string b = parse_bytes(tail); arm_now(); P.str(o).set(b.data(), b.size(), mode_of(f[1][0])); break; }
     case 'T': case 'E': {
         int w = (int)num(2); std::vector<uint64_t> us = parse_units(tail, w);
         if (w == 16) { std::vector<char16_t> v(us.begin(), us.end()); v.push_back(0);
-            if (c == 'T') { ST::utf16_buffer ub(v.data(), us.size()); P.str(o).set(ub, mode_of(f[1][0])); }
-            else P.str(o) = ST::string(v.data(), us.size(), mode_of(f[1][0])); }
+            if (c == 'T') { ST::utf16_buffer ub(v.data(), us.size()); arm_now(); P.str(o).set(ub, mode_of(f[1][0])); }
+            else { arm_now(); P.str(o) = ST::string(v.data(), us.size(), mode_of(f[1][0])); } }
         else { std::vector<char32_t> v(us.begin(), us.end()); v.push_back(0);
-            if (c == 'T') { ST::utf32_buffer ub(v.data(), us.size()); P.str(o).set(ub, mode_of(f[1][0])); }
-            else P.str(o) = ST::string(v.data(), us.size(), mode_of(f[1][0])); }
+            if (c == 'T') { ST::utf32_buffer ub(v.data(), us.size()); arm_now(); P.str(o).set(ub, mode_of(f[1][0])); }
+            else { arm_now(); P.str(o) = ST::string(v.data(), us.size(), mode_of(f[1][0])); } }
         break; }
-    case 'U': { std::string b = parse_bytes(tail); new (P.raw[BUFSLOT]) B(b.data(), b.size()); P.live[BUFSLOT] = true; break; }
-    case 'b': P.str(o).set(std::move(P.buf(BUFSLOT)), mode_of(f[1][0])); break;
-    case 'B': P.str(o).set(static_cast<const B &>(P.buf(BUFSLOT)), mode_of(f[1][0])); break;
+    case 'U': { std::string b = parse_bytes(tail); arm_now(); new (P.raw[BUFSLOT]) B(b.data(), b.size()); P.live[BUFSLOT] = true; break; }
+    case 'b': arm_now(); P.str(o).set(std::move(P.buf(BUFSLOT)), mode_of(f[1][0])); break;
+    case 'B': arm_now(); P.str(o).set(static_cast<const B &>(P.buf(BUFSLOT)), mode_of(f[1][0])); break;
     case 'K': const_op(P, o, (int)num(1), f.size() > 2 ? f[2] : "", num(3), num(4)); break;
     case 'V': { std::vector<std::string> ds = splitc(tail, ','); int d[3] = {-1, -1, -1};
                 for (size_t i = 0; i < 3 && i < ds.size(); ++i) if (!ds[i].empty()) d[i] = atoi(ds[i].c_str());
@@ -249,7 +255,52 @@ static void apply(SPool &P, const std::string &op) {
     }
 }
 
+static bool in_list(const std::string &n, std::initializer_list<const char *> l) { for (const char *x : l) if (n == x) return true; return false; }
+
+// An operation is executed only when every slot it names is in the state it needs (constructor targets dead, everything
+// else alive); otherwise the step is reported as "skip" and nothing happens.  The driver applies the same rule to the
+// model's own liveness, so a construction that threw earlier in the history never leads to a call on raw storage.
+static bool precheck(SPool &P, const std::string &op) {
+    char c = op[0];
+    size_t colon = op.find(':');
+    std::string head = op.substr(1, colon == std::string::npos ? std::string::npos : colon - 1);
+    std::string tail = colon == std::string::npos ? "" : op.substr(colon + 1);
+    std::vector<std::string> f = splitc(head, ',');
+    auto num = [&](size_t i) -> long { return i < f.size() && !f[i].empty() ? atol(f[i].c_str()) : -1; };
+    auto alive = [&](long o, int n = NSTR) { return o >= 0 && o < n && P.live[o]; };
+    auto dead = [&](long o, int n = NSTR) { return o >= 0 && o < n && !P.live[o]; };
+    long o = num(0), s = num(1);
+    switch (c) {
+    case 'N': case 'D': return dead(o);
+    case 'C': case 'M': return dead(o) && alive(s);
+    case 'X': return alive(o, NOBJ);
+    case 'c': case 'P': case 'p': return alive(o) && alive(s);
+    case 'm': return alive(o) && alive(s) && o != s;
+    case 'R': case 'a': case 'e': case 'S': case 'T': case 'E': return alive(o);
+    case 'U': return o == BUFSLOT && !P.live[BUFSLOT];
+    case 'b': case 'B': return alive(o) && P.live[BUFSLOT];
+    case 'K': { std::string n = f.size() > 2 ? f[2] : "";
+        if (!(o == BUFSLOT ? !P.live[BUFSLOT] : dead(o)) || !alive(s)) return false;
+        if (in_list(n, {"trimset", "bfs", "als", "plus", "plusc", "cplus", "ssout", "bf", "af", "bl", "al", "repl", "replci", "replc", "fmtwith"}) && !alive(num(3))) return false;
+        if (in_list(n, {"repl", "replci", "replc"}) && !alive(num(4))) return false;
+        return true; }
+    case 'V': { std::string n = f.size() > 1 ? f[1] : "";
+        if (!alive(o)) return false;
+        if (in_list(n, {"splits", "splitz", "tokset"}) && !alive(num(2))) return false;
+        std::vector<std::string> ds = splitc(tail, ','); std::set<int> seen;
+        for (size_t i = 0; i < 3 && i < ds.size(); ++i) if (!ds[i].empty()) { int d = atoi(ds[i].c_str()); if (!dead(d) || !seen.insert(d).second) return false; }
+        return true; }
+    case 'Q': { std::string n = f.size() > 1 ? f[1] : "";
+        if (!alive(o)) return false;
+        if (in_list(n, {"find", "findi", "findlast", "contains", "starts", "ends", "cmp", "cmpi", "cmpc", "eq", "lessi", "findat", "cmpn"}) && !alive(num(2))) return false;
+        return true; }
+    }
+    return false;
+}
+
 static std::string apply_guarded(SPool &P, const std::string &op) {
+    if (!precheck(P, op)) return "skip";
+    CountScope scope;      // spans the catch clauses: the exception object's own storage is released inside them
     try { apply(P, op); return ""; }
     catch (const ST::unicode_error &) { return "unicode_error"; }
     catch (const ST::codec_error &) { return "codec_error"; }
@@ -267,38 +318,50 @@ static std::vector<std::string> split_ops(const std::string &s) {
     return v;
 }
 
+static bool end_leak(SPool &pool, long live_before) {
+    pool.destroy_all();
+    static unsigned long counter = 0;
+    bool leak = alloc_ctl().live != live_before;
+    if (!leak && (++counter % 256) == 0) leak = __lsan_do_recoverable_leak_check() != 0;
+    return leak;
+}
+
 static std::string exec_case(const Args &a) {
     static SPool pool;
     std::string out; out.reserve(8192);
     std::vector<std::string> ops = split_ops(a.get("ops"));
     const long live_before = alloc_ctl().live;
+    if (a.op == "sfault") {
+        // pre-state = the prefix history; then the operation `op` once unarmed (counting its allocations: k0) and once
+        // for every k = 1..n with exactly the k-th allocation failing, each time from the same rebuilt pre-state,
+        // each time followed by destroying every object (leak / double free / bad free show up there)
+        const std::string op = a.get("op");
+        long n = 0;
+        for (long k = 0; k <= n && k <= 40; ++k) {
+            for (const auto &pre : ops) apply_guarded(pool, pre);
+            std::string presnap = pool.snapshot();
+            if (k == 0) out += "pre=" + presnap + " ";
+            g_arm_k = k;
+            std::string exc = apply_guarded(pool, op);
+            if (k == 0) n = alloc_ctl().count;
+            bool fired = k > 0 && alloc_ctl().fail_at < 0;
+            alloc_ctl().fail_at = -1; g_arm_k = -1;
+            std::string snap = pool.snapshot();
+            bool leak = end_leak(pool, live_before);
+            out += "k" + std::to_string(k) + "=" + (exc.empty() ? std::string("ok") : exc) + (k > 0 && !fired ? ",notfired" : "") + "|" + snap + "|" + (leak ? "leak" : "clean") + " ";
+            if (k == 0) out += "n=" + std::to_string(n) + " ";
+        }
+        out += "end=done";
+        return out;
+    }
     int step = 0;
     for (const auto &op : ops) {
         ++step;
         std::string exc = apply_guarded(pool, op);
         out += "s" + std::to_string(step) + "=" + (exc.empty() ? "" : "!" + exc + "|") + pool.snapshot() + " ";
     }
-    if (a.op == "nallocs") {
-        long before = alloc_ctl().count;
-        std::string exc = apply_guarded(pool, a.get("op"));
-        long n = alloc_ctl().count - before;
-        pool.destroy_all();
-        return "n=" + std::to_string(n) + (exc.empty() ? "" : " exc=" + exc);
-    }
-    if (a.op == "sfault") {
-        long k = (long)a.num("k");
-        alloc_ctl().count = 0; alloc_ctl().fail_at = k;
-        std::string exc = apply_guarded(pool, a.get("op"));
-        bool fired = alloc_ctl().fail_at < 0;
-        alloc_ctl().fail_at = -1;
-        out += "f=" + (exc.empty() ? std::string("completed") : exc) + (fired ? "" : ",notfired") + " sf=" + pool.snapshot() + " ";
-    }
-    pool.destroy_all();
     ops.clear(); ops.shrink_to_fit();
-    static unsigned long counter = 0;
-    bool leak = alloc_ctl().live != live_before;
-    if (!leak && (++counter % 256) == 0) leak = __lsan_do_recoverable_leak_check() != 0;
-    out += std::string("end=") + (leak ? "leak" : "clean");
+    out += std::string("end=") + (end_leak(pool, live_before) ? "leak" : "clean");
     return out;
 }
 
@@ -384,16 +447,6 @@ static std::string rand_op(Rng &rng, G &g, bool with_throwing) {
                    return "p" + S(o) + "," + S(s); }
         }
     }
-}
-
-// the generator's liveness bookkeeping is optimistic (a throwing K leaves d dead); the real liveness is fixed up by
-// replaying the op stream through a tiny interpreter that asks the library — instead we simply never reuse a `d` whose
-// construction may throw: ops that may throw put their result in a slot that is destroyed (if alive) right after.
-static std::string fix_throwing(const std::string &op, G &g) {
-    // K<d>,… with a possibly-throwing name: follow by a conditional destroy marker handled in exec? Not available: we
-    // make liveness deterministic by pre-checking in the generator which names can throw and emitting them through
-    // slot 7, which the random generator otherwise never uses.
-    (void)g; return op;
 }
 
 static void gen(Emitter &em, const Options &opt) {
